@@ -169,3 +169,119 @@ def v1_units():
                 units.append(ConfigureV1(gridfile, "gridforce" if gridfile != "files" else "files", subgrid, ibm, ibm, continuous, subgrid, ibm))
     units.append(ConfigureV1(None, "files", True, False, False, False, False, True))
     return units
+
+
+# ---------------------------------------------------------------- configure(): the dispatcher
+# pathlib / tomli / yaml are external. Assumed: Path.exists(), Path.suffix, Path.open() as a context manager;
+# tomli.load / yaml.safe_load return the parsed dictionary or raise TOMLDecodeError / YAMLError.
+
+from pyvc.interp import ModelObject  # noqa: E402
+from pyvc.values import PyRaise, Unsupported  # noqa: E402
+
+
+class ConfPath(ModelObject):
+    def __init__(self, suffix):
+        self.suffix = suffix
+
+    def pv_getattr(self, cx, name):
+        if name == "suffix":
+            return self.suffix
+        if name == "exists":
+            f = lambda interp: z3.Bool("config_file_exists")  # noqa: E731
+        elif name == "open":
+            me = self
+
+            def f(interp, mode="r", encoding=None):
+                return ("<open file>", me, mode)
+
+        else:
+            raise Unsupported(f"Path.{name}")
+        f._pyvc_model = True
+        return f
+
+
+class Configure(Spec):
+    """configure(): missing file, unparsable file, unknown version and a version-2 file with a missing mandatory
+    section are configuration errors (SystemExit 3); otherwise the dictionary is handed to the translator of its
+    version (explicit ``version`` key, else 1 exactly when it has a ``time_control`` section) and that result returned."""
+
+    func = "ladim.configure.configure"
+    properties = ("C18", "C20")
+    inline = ()
+
+    def __init__(self, suffix, version_key, v1_shape):
+        self.suffix, self.version_key, self.v1_shape = suffix, version_key, v1_shape
+        self.name = f"configure[{suffix or 'no suffix'} file, version key {version_key!r}, {'time_control section' if v1_shape else 'no time_control section'}]"
+        spec = self
+        self.log = []
+
+        def path(interp, name):
+            return ConfPath(spec.suffix)
+
+        def parsed():
+            d = dict(time_control=dict()) if spec.v1_shape else dict(time=dict())
+            if spec.version_key is not None:
+                d["version"] = spec.version_key
+            return d
+
+        def toml_load(interp, fid):
+            interp.cx.trace.append(("parse", "toml", fid[2] if isinstance(fid, tuple) else None))
+            if interp.cx.fork(z3.Bool("file_parses")):
+                return parsed()
+            raise PyRaise("TOMLDecodeError", ())
+
+        def yaml_load(interp, fid):
+            interp.cx.trace.append(("parse", "yaml", fid[2] if isinstance(fid, tuple) else None))
+            if interp.cx.fork(z3.Bool("file_parses")):
+                return parsed()
+            raise PyRaise("YAMLError", ())
+
+        def v2(interp, args, kwargs):
+            interp.cx.trace.append(("configure_v2", args[0]))
+            if interp.cx.fork(z3.Bool("mandatory_sections_present")):
+                args[0]["_v2_done"] = True
+                return None
+            raise PyRaise("KeyError", ("forcing",))
+
+        def v1(interp, args, kwargs):
+            interp.cx.trace.append(("configure_v1", args[0]))
+            return dict(_translated_from=args[0])
+
+        self.externals = {"pathlib.Path": path, "tomli.load": toml_load, "yaml.safe_load": yaml_load}
+        self.callees = {"ladim.configure.configure_v2": v2, "ladim.configure.configure_v1": v1}
+
+    def inputs(self, cx):
+        return Args(config_file="<configuration file>")
+
+    def expected_version(self):
+        if self.version_key is not None and str(self.version_key) != "0":
+            return str(self.version_key)[0]
+        return "1" if self.v1_shape else "2"
+
+    def raises(self, cx, a):
+        ev = self.expected_version()
+        cond = z3.Or(z3.Not(z3.Bool("config_file_exists")), z3.Not(z3.Bool("file_parses")))
+        if ev == "2":
+            cond = z3.Or(cond, z3.Not(z3.Bool("mandatory_sections_present")))
+        elif ev != "1":
+            cond = z3.BoolVal(True)
+        return [(cond, "SystemExit")]
+
+    def model(self, cx, a):
+        return NotImplemented
+
+    def ensures(self, cx, a, result):
+        ev = self.expected_version()
+        tr = list(cx.trace)
+        parse = [e for e in tr if e[0] == "parse"]
+        out = [("C18: the file is parsed once, as TOML exactly when its suffix is .toml (binary mode), as YAML otherwise", len(parse) == 1 and parse[0][1] == ("toml" if self.suffix == ".toml" else "yaml") and (parse[0][2] == "rb" if self.suffix == ".toml" else True))]
+        calls = [e[0] for e in tr if e[0].startswith("configure_v")]
+        out.append((f"C18: the dictionary goes to the version-{ev} translator and to no other", calls == [f"configure_v{ev}"]))
+        if ev == "2":
+            out.append(("C18: a version-2 dictionary is completed in place and returned", isinstance(result, dict) and result.get("_v2_done") is True))
+        else:
+            out.append(("C18: a version-1 file yields the translated version-2 dictionary", isinstance(result, dict) and "_translated_from" in result))
+        return out
+
+
+CONFIGURE_UNITS = [Configure(sfx, vk, v1s) for sfx in (".yaml", ".toml", "") for vk, v1s in ((None, False), (None, True), (2, False), ("2.0", True), (1, True), ("1.2", False), (3, False), (0, True))]
